@@ -230,8 +230,33 @@ class _Attr:
         self.v = v
 
 
+class RaisingFieldType(FieldType):
+    """a user's field type that cannot show some values"""
+
+    def make_desired_cell_ch_chunks(self, value, fmt_modifier, field_palette):
+        if value == 13 or value == "Jerry":
+            raise LookupError(f"cannot show {value!r}")
+        return super().make_desired_cell_ch_chunks(value, fmt_modifier, field_palette)
+
+
+class NestedValue:
+    """a cell value whose text is itself produced by the package (a rendering inside a rendering)"""
+
+    def __init__(self, value):
+        self.value = value
+
+    def __str__(self):
+        return str(PrettyPrinter()(self.value, no_color=True))
+
+
+def _cell(v):
+    if isinstance(v, dict) and set(v) == {"nested"}:
+        return NestedValue(v["nested"])
+    return v
+
+
 def _records(spec):
-    recs = [tuple(r) for r in spec["records"]]
+    recs = [tuple(_cell(v) for v in r) for r in spec["records"]]
     if spec.get("nt"):
         R = namedtuple("R", spec["fields"])
         recs = [R(*r) for r in recs]
@@ -261,6 +286,8 @@ def build_object(spec, enums):
             ft = kw.setdefault("fields_types", {})
             for n, (lo, hi) in spec["wtypes"].items():
                 ft.setdefault(n, FieldType(min_width=lo, max_width=hi))
+        if spec.get("poison"):
+            kw.setdefault("fields_types", {}).setdefault(spec["poison"], RaisingFieldType())
         if spec.get("titles"):
             kw["fields_titles"] = dict(spec["titles"])
         if spec.get("limits") is not None:
